@@ -222,7 +222,10 @@ def run_harness(pid, n, seed, extra=(), timeout=1800, tier="quick"):
             if c.get("text") is None:      # (a Go nil slice is marshalled as null)
                 c["text"] = [c.get("oracle") or ""] if c.get("oracle") else []
             cases.append(c)
-    return p.returncode, cases, p.stderr[-4000:]
+    err = p.stderr
+    if len(err) > 5500:   # a Go crash names its reason in the first lines (fatal error: ...), the goroutines follow
+        err = err[:1500] + "\n[...]\n" + err[-4000:]
+    return p.returncode, cases, err
 
 
 # ---------------------------------------------------------------- model side (in-kernel evaluation)
